@@ -45,6 +45,45 @@ theorem C17_score (devs : List (Option Rat)) :
   unfold mseScore maeScore
   simp only [this, and_self]
 
+/-- the removed point never contributes to its own prediction: the leave-one-out prediction at
+point `i` is the same whatever value was observed there -/
+theorem C17_own_value_unused (maxDist : Rat) (minP maxP : ℕ) (D Gm : List (List Rat))
+    (v : List Rat) (i : ℕ) (x : Rat) :
+    looPredict maxDist minP maxP D Gm (v.set i x) i = looPredict maxDist minP maxP D Gm v i := by
+  unfold looPredict deleteAt
+  rw [List.eraseIdx_set_eq]
+
+/-- the prediction uses all remaining observations: it is the kriging result (`krigeOne`, whose
+neighbourhood and system are characterised by `C07_target`) for the data set with exactly the
+held-out entry removed, and the deviation compares it with the removed observation -/
+theorem C17_loo (maxDist : Rat) (minP maxP : ℕ) (D Gm : List (List Rat)) (v : List Rat) (i : ℕ) :
+    (∀ z sg, looPredict maxDist minP maxP D Gm v i = .ok z sg →
+        looDev maxDist minP maxP D Gm v i = some (z - v.getD i 0)) ∧
+    ((∀ z sg, looPredict maxDist minP maxP D Gm v i ≠ .ok z sg) →
+        looDev maxDist minP maxP D Gm v i = none) ∧
+    (deleteAt v i).length = v.length - (if i < v.length then 1 else 0) := by
+  refine ⟨?_, ?_, ?_⟩
+  · intro z sg h; simp [looDev, h]
+  · intro h
+    unfold looDev
+    cases hk : looPredict maxDist minP maxP D Gm v i with
+    | ok z sg => exact absurd hk (h z sg)
+    | lessPoints => rfl
+    | singular => rfl
+  · unfold deleteAt
+    by_cases hi : i < v.length
+    · simp [List.length_eraseIdx, hi]
+    · simp [hi, List.eraseIdx_of_length_le (not_lt.1 hi)]
+
+/-- the jackknife score is the score over the deviations of exactly the selected points -/
+theorem C17_jackknife (maxDist : Rat) (minP maxP : ℕ) (D Gm : List (List Rat)) (v : List Rat)
+    (sel : List ℕ) :
+    (jackknife maxDist minP maxP D Gm v sel).length = sel.length ∧
+    ∀ k (hk : k < sel.length), (jackknife maxDist minP maxP D Gm v sel)[k]'(by simpa [jackknife] using hk)
+      = looDev maxDist minP maxP D Gm v sel[k] := by
+  refine ⟨by simp [jackknife], ?_⟩
+  intro k hk; simp [jackknife]
+
 /-- D3 (repaired): the old `nansum/len` MAE shrinks with every un-estimable point -/
 theorem C17_mae_defect : maeScore [some 2, none, some 4] = some 3 ∧
     maeScoreDefect [some 2, none, some 4] = some 2 := by
